@@ -47,11 +47,11 @@ theorem page_text_conserves (hz : Heur) (o : TextOpts) (widthZero : Bool) (fs : 
   unfold pageText
   rcases dispatch_is_candidate o (isCharacterLevel fs)
       (detectMultiColumn widthZero fs (hz.readingOrder fs).columnCount)
-      (preserveLayout hz.pad fs)
+      (preserveLayoutGo hz.cw hz.lh0 fs)
       (extractWithParagraphs hz.gaps hz.minCW hz.minW hz.isSpan hz.keep hz.tolOf hz.preserve hz.rtl hz.brkOf fs)
       (extractByColumn hz.gaps hz.minCW hz.minW hz.isSpan hz.keep hz.tolOf hz.preserve hz.rtl fs)
       (assembleText fs) with h | h | h | h <;> rw [h]
-  · exact C09.assemble_conserves_preserveLayout hz.pad fs
+  · exact C09.assemble_conserves_preserveLayoutGo hz.cw hz.lh0 fs
   · exact C09Order.joinparagraphs_conserves _ _ _ _ _ _ _ _ _ fs
   · exact C09Order.bycolumn_conserves _ _ _ _ _ _ _ _ fs
   · exact C09.assemble_conserves fs
